@@ -1,10 +1,12 @@
 use core::fmt::Debug;
 
 #[cfg(not(feature = "std"))]
+#[cfg_attr(feature = "verif-hooks", allow(unused_imports))]
 use alloc::{boxed::Box, vec, vec::Vec};
 
 #[cfg(feature = "hfs")]
 use crate::params::HandshakeModifier;
+#[cfg_attr(feature = "verif-hooks", allow(unused_imports))]
 use crate::{
     cipherstate::{CipherState, CipherStates},
     constants::{MAXDHLEN, PSKLEN},
@@ -282,10 +284,22 @@ impl<'builder> Builder<'builder> {
         Ok(hs)
     }
 
+    #[cfg(not(feature = "verif-hooks"))]
     #[cfg(not(feature = "hfs"))]
     #[allow(clippy::unnecessary_wraps)]
     #[allow(clippy::needless_pass_by_value)]
     fn resolve_kem(_: Box<dyn CryptoResolver>, _: &mut HandshakeState) -> Result<(), Error> {
+        // HFS is disabled, return nothing
+        Ok(())
+    }
+
+    // Verification twin: identical body, parameter typed as the caller's `BoxedCryptoResolver`
+    // so that no `dyn CryptoResolver + Send` -> `dyn CryptoResolver` coercion is needed.
+    #[cfg(feature = "verif-hooks")]
+    #[cfg(not(feature = "hfs"))]
+    #[allow(clippy::unnecessary_wraps)]
+    #[allow(clippy::needless_pass_by_value)]
+    fn resolve_kem(_: BoxedCryptoResolver, _: &mut HandshakeState) -> Result<(), Error> {
         // HFS is disabled, return nothing
         Ok(())
     }
